@@ -18,7 +18,7 @@
 (* every world of a bounded family, ScanTrace.tla reads worlds recorded    *)
 (* from the real implementation.  Both run literally the same Next.        *)
 (***************************************************************************)
-EXTENDS Integers, Sequences, FiniteSets, TLC, SequencesExt
+EXTENDS Bytes
 
 CONSTANTS NWorlds,            \* worlds are numbered 1..NWorlds; world w is given by four accessors
           WK(_),              \*   its depth limit
@@ -41,13 +41,7 @@ HitsOf(t)  == WHits(wid, t)
 NTexts     == Len(WTexts(wid))
 
 ---------------------------------------------------------------------------
-(* bytes *)
-LowerB(b) == IF b >= 65 /\ b <= 90 THEN b + 32 ELSE b
-Lower(s)  == [i \in 1..Len(s) |-> LowerB(s[i])]
-\* python slice semantics s[a:b] (negative and out-of-range indices included)
-Clamp(i, n) == IF i < 0 THEN (IF i + n < 0 THEN 0 ELSE i + n) ELSE IF i > n THEN n ELSE i
-PySlice(s, a, b) == LET n == Len(s)  lo == Clamp(a, n)  hi == Clamp(b, n)
-                    IN IF lo >= hi THEN <<>> ELSE SubSeq(s, lo + 1, hi)
+(* byte-string operations: Bytes.tla *)
 
 ---------------------------------------------------------------------------
 (* multidecoder.py:42-45 -- drop empty values, stable sort by (start, -end) *)
